@@ -113,7 +113,9 @@ def TY(t, *cs): return C("typed", k=t, cs=list(cs))
 
 
 def atoms():
-    a = [C("in", vs=[I(1), S("a"), B(True)]), C("in", vs=[]), C("positive"), C("negative")]
+    a = [C("in", vs=[I(1), S("a"), B(True)]), C("in", vs=[]), C("positive"), C("negative"),
+         # enumerations of strings only (one with the empty string, one spelling a symbol and a boolean of the value domain)
+         C("in", vs=[S("a"), S("ab")]), C("in", vs=[S(""), S("a")]), C("in", vs=[S("foo"), S("true")])]
     for op in ("gt", "gte", "lt", "lte"):
         a += [C(op, n=n) for n in (0, 2)]
     for op in ("len", "lengt", "lengte", "lenlt", "lenlte"):
@@ -121,6 +123,7 @@ def atoms():
     a += [C("of", cs=[TN("string")]), C("of", cs=[TN("int"), TN("string")]), C("of"), C("of", cs=[TY("int", C("gt", n=0))])]
     a += [C("haskey", k="a"), C("haskey", k="a", cs=[TN("int")]), C("haskey", k="a", cs=[TN("string"), TN("int")]), C("haskey", k="z", cs=[TN("any")]),
           C("mayhavekey", k="b", cs=[TN("int")]), C("mayhavekey", k="a", cs=[TN("string")])]
+    a += [C("haskey", k="a", cs=[C("in", vs=[S(""), S("x")])]), C("mayhavekey", k="a", cs=[C("in", vs=[S("x"), S("foo")])]), C("of", cs=[C("in", vs=[S("a"), S("b")])]), C("of", cs=[C("in", vs=[S(""), S("a")])])]
     a += [C("istrue"), C("isfalse"), C("istruthy"), C("isfalsy")]
     a += [C("regexp", p=p) for p in ("^a", "b$", ".*")]
     return a
